@@ -746,6 +746,29 @@ theorem remove_inv (s : Sys) (id : Nat) (a : Dl) (hf : s.find id = some a) (hc :
     rw [ex, ey]
     exact hxy hx hy
 
+theorem abort_inv (s : Sys) (id : Nat) (a : Dl) (hf : s.find id = some a) (hc : a.status = .broken)
+    (h : SysInv s) :
+    SysInv ⟨s.fs.filter (fun e => !(e.dir == a.dir && e.name == a.name)), s.drop id⟩ := by
+  have hmem : a ∈ s.dls := List.mem_of_find?_eq_some hf
+  have hid : a.id = id := by
+    have := List.find?_some hf
+    simpa using this
+  have hsym : ∀ x y : Dl, (x.status ≠ .gone → y.status ≠ .gone → (x.dir, x.name) ≠ (y.dir, y.name)) →
+      (y.status ≠ .gone → x.status ≠ .gone → (y.dir, y.name) ≠ (x.dir, x.name)) :=
+    fun x y hxy hy hx heq => hxy hx hy heq.symm
+  refine ⟨?_, h.2.sublist List.filter_sublist⟩
+  intro b hb
+  have hbm := (List.mem_filter.mp hb).1
+  have hbid : b.id ≠ id := by simpa using (List.mem_filter.mp hb).2
+  have hbinv := h.1 b hbm
+  refine ⟨hbinv.1, hbinv.2.1, fun hg => ?_⟩
+  have hba : b ≠ a := by
+    intro heq
+    apply hbid
+    rw [heq, hid]
+  have hdiff := pairwise_mem hsym s.dls h.2 b hbm a hmem hba hg (by rw [hc]; decide)
+  exact has_filter_ne s.fs a.dir b.dir a.name b.name hdiff (hbinv.2.2 hg)
+
 theorem step_inv (ss : List Strategy) (hl : ss.getLast? = some .number) (s : Sys) (op : Op)
     (hinv : SysInv s) : SysInv (step ss s op).1 := by
   cases op with
@@ -776,6 +799,15 @@ theorem step_inv (ss : List Strategy) (hl : ss.getLast? = some .number) (s : Sys
     split
     · split
       · exact drop_inv s id hinv
+      · exact hinv
+    · exact hinv
+  | abort id =>
+    simp only [step]
+    split
+    · rename_i a hf
+      split
+      · rename_i hc
+        exact abort_inv s id a hf hc hinv
       · exact hinv
     · exact hinv
 
